@@ -330,4 +330,119 @@ theorem replaceCall_in_context (c : Char) (tl a post p s body : List Char)
   rw [hkeep]
   simp
 
+/-! ### renaming, token by token -/
+
+/-- what the rewriter sees: string literals, identifiers (with the "follows a dot" flag), numbers, single characters -/
+inductive Tok where
+  | str (t : List Char)
+  | ident (i : List Char) (member : Bool)
+  | num (t : List Char)
+  | chr (c : Char)
+  deriving Repr, DecidableEq
+
+def Tok.text : Tok → List Char
+  | .str t => t
+  | .ident i _ => i
+  | .num t => t
+  | .chr c => [c]
+
+/-- the walk of `rewriteAux`, returning the tokens -/
+def toksAux : Nat → Bool → List Char → List Tok
+  | 0, _, _ => []
+  | _, _, [] => []
+  | fuel + 1, member, c :: cs =>
+      if c == '"' then .str ('"' :: (strBody cs).1) :: toksAux fuel false (strBody cs).2
+      else if isLetter c then .ident (c :: (spanIdent cs).1) member :: toksAux fuel false (spanIdent cs).2
+      else if isDigit c then .num (c :: (spanDigits cs).1) :: toksAux fuel false (spanDigits cs).2
+      else .chr c :: toksAux fuel (c == '.') cs
+
+def toks (s : List Char) : List Tok := toksAux (s.length + 1) false s
+
+/-- the tokens are the text, cut up: nothing lost, nothing added -/
+theorem toksAux_flatten : ∀ (fuel : Nat) (member : Bool) (s : List Char), s.length < fuel →
+    (toksAux fuel member s).flatMap Tok.text = s
+  | 0, _, _, h => by omega
+  | fuel + 1, member, [], _ => by simp [toksAux]
+  | fuel + 1, member, c :: cs, hlen => by
+      simp only [List.length_cons] at hlen
+      unfold toksAux
+      by_cases hq : (c == '"') = true
+      · have := strBody_snd_length cs
+        simp only [hq, if_true, List.flatMap_cons, Tok.text]
+        rw [toksAux_flatten fuel false _ (by omega)]
+        have hc : c = '"' := by simpa using hq
+        simp only [List.cons_append]; rw [strBody_append, hc]
+      · simp only [hq, Bool.false_eq_true, if_false]
+        by_cases hl : isLetter c = true
+        · have := spanIdent_snd_length cs
+          simp only [hl, if_true, List.flatMap_cons, Tok.text]
+          rw [toksAux_flatten fuel false _ (by omega)]
+          simp only [List.cons_append]; rw [spanIdent_append]
+        · simp only [hl, Bool.false_eq_true, if_false]
+          by_cases hd : isDigit c = true
+          · have := spanDigits_snd_length cs
+            simp only [hd, if_true, List.flatMap_cons, Tok.text]
+            rw [toksAux_flatten fuel false _ (by omega)]
+            simp only [List.cons_append]; rw [spanDigits_append]
+          · simp only [hd, Bool.false_eq_true, if_false, List.flatMap_cons, Tok.text]
+            rw [toksAux_flatten fuel _ cs (by omega)]
+            simp
+
+theorem toks_flatten (s : List Char) : (toks s).flatMap Tok.text = s :=
+  toksAux_flatten _ _ _ (by omega)
+
+/-- mapping the identifier tokens, keeping the others -/
+def mapTok (f : List Char → Bool → List Char) : Tok → List Char
+  | .ident i m => f i m
+  | t => t.text
+
+@[simp] theorem mapTok_str (f : List Char → Bool → List Char) (t : List Char) : mapTok f (.str t) = t := rfl
+@[simp] theorem mapTok_ident (f : List Char → Bool → List Char) (i : List Char) (m : Bool) : mapTok f (.ident i m) = f i m := rfl
+@[simp] theorem mapTok_num (f : List Char → Bool → List Char) (t : List Char) : mapTok f (.num t) = t := rfl
+@[simp] theorem mapTok_chr (f : List Char → Bool → List Char) (c : Char) : mapTok f (.chr c) = [c] := rfl
+
+/-- a rewrite that looks at the identifier and its flag only, and consumes nothing, acts token by token -/
+theorem rewriteAux_tokenwise (rw : Rewrite) (f : List Char → Bool → List Char) (hrw : ∀ i m r, rw i m r = (f i m, 0)) :
+    ∀ (fuel : Nat) (member : Bool) (s : List Char),
+    rewriteAux rw fuel member s = (toksAux fuel member s).flatMap (mapTok f)
+  | 0, _, _ => by simp [rewriteAux, toksAux]
+  | fuel + 1, member, [] => by simp [rewriteAux, toksAux]
+  | fuel + 1, member, c :: cs => by
+      rw [rewriteAux_cons]
+      unfold toksAux
+      by_cases hq : (c == '"') = true
+      · simp only [hq, if_true, List.flatMap_cons, mapTok_str]
+        rw [rewriteAux_tokenwise rw f hrw fuel false]
+      · simp only [hq, Bool.false_eq_true, if_false]
+        by_cases hl : isLetter c = true
+        · simp only [hl, if_true, List.flatMap_cons, hrw, List.drop_zero, mapTok_ident]
+          rw [rewriteAux_tokenwise rw f hrw fuel false]
+        · simp only [hl, Bool.false_eq_true, if_false]
+          by_cases hd : isDigit c = true
+          · simp only [hd, if_true, List.flatMap_cons, mapTok_num]
+            rw [rewriteAux_tokenwise rw f hrw fuel false]
+          · simp only [hd, Bool.false_eq_true, if_false, List.flatMap_cons, mapTok_chr]
+            rw [rewriteAux_tokenwise rw f hrw fuel _ cs]
+            simp
+
+/-- what renaming does to one token: an identifier that is a formal and does not follow a dot becomes its actual;
+    everything else — other identifiers, member names, string literals, numbers, punctuation — stays -/
+def renTok (ren : List (List Char × List Char)) : Tok → List Char
+  | .ident i false => (renLookup ren i).getD i
+  | t => t.text
+
+/-- **renaming is simultaneous and token-wise**: every token is mapped on its own (`renTok`); a replacement is never
+    looked at again, string literals and member names are never entered -/
+theorem renameIdentifiers_tokenwise (s : List Char) (ren : List (List Char × List Char)) :
+    renameIdentifiers s ren = (toks s).flatMap (renTok ren) := by
+  unfold renameIdentifiers rewriteIdentifiers toks
+  rw [rewriteAux_tokenwise _ (fun i m => match renLookup ren i with | some r => if m then i else r | none => i)
+        (by intro i m r; cases renLookup ren i <;> simp; split <;> rfl)]
+  congr 1
+  funext t
+  cases t with
+  | ident i m =>
+      cases m <;> cases hr : renLookup ren i <;> simp [renTok, hr, Tok.text]
+  | _ => simp [renTok, mapTok]
+
 end Cpf.Lemmas.Subst
